@@ -230,6 +230,7 @@ func (ctl *Control) Close() error {
 func (ctl *Control) Replaced(newCtl *Control) {
 	xl := ctl.xl
 	xl.Infof("Replaced by client [%s]", newCtl.runID)
+	verifhook.At("ctl.replaced.closing", "ctl", verifhook.ID(ctl), "by", verifhook.ID(newCtl))
 	ctl.runID = ""
 	ctl.conn.Close()
 	verifhook.At("ctl.replaced", "ctl", verifhook.ID(ctl), "by", verifhook.ID(newCtl))
